@@ -118,7 +118,8 @@ for name, f, goals in [
 # ------------------------------------------------------------------------------------ C04
 def _c04(obs: Obs, ref: RefResult, sym: Any) -> Any:
     # an unbounded number of executions shows as the loop's iteration cap (Livelock)
-    return [x for x in (("livelock" if obs.kind == "livelock" else None), V.once(obs, ref)) if x]
+    # "all consumers of the node observe that single result": the arguments every consumer received (V.args)
+    return [x for x in (("livelock" if obs.kind == "livelock" else None), V.once(obs, ref), V.args(obs, ref)) if x]
 
 
 def shared_scopes() -> Spec:
@@ -378,15 +379,19 @@ for prop, verdict, hang_judged, specs in [
 # opens the await windows inside _execute_node / _run_node that the no-op collaborators of the test-suite never open.
 def _slow(events: bool, store: bool, write_once: bool = False) -> Any:
     def cfg(sym: Any) -> Cfg:
-        return Cfg(events=events, store=store, write_once=write_once, collab_dur=sym.int("collab_dur", 0, 86399))
+        return Cfg(events=events, store=store, write_once=write_once, collab_dur=0,
+                   ev_durs={"on_node_start": sym.int("ev_start_dur", 0, 86399),
+                            "on_node_complete": sym.int("ev_complete_dur", 0, 86399)} if events else None,
+                   save_dur=sym.int("save_dur", 0, 86399) if store else 0)
 
     return cfg
 
 
-SLOW_SYMS = ("duration of every event callback / artifact save (0 = does not suspend)",)
-SLOW_DUR = {"oneof_shared_dep": {"H"}, "oneof_diamond": {"F", "S"}, "oneof_diamond_shared": {"F"}, "rec_simple": {"M"}, "switch_shared_case": set(),
-            "shared_scopes": set(), "rec_inner_start": {"Side", "M"}, "rhombus": {"B", "C"}, "oneof_basic": {"C1"},
-            "retry_chain": set()}
+SLOW_SYMS = ("three independent symbolic durations: every on_node_start callback, every on_node_complete callback, "
+             "every artifact save (0 = does not suspend)",)
+SLOW_DUR = {"oneof_shared_dep": {"H"}, "oneof_diamond": {"F"}, "oneof_diamond_shared": {"F"}, "rec_simple": {"M"},
+            "switch_shared_case": set(), "shared_scopes": set(), "rec_inner_start": {"Side"}, "rhombus": {"B"},
+            "oneof_basic": {"C1"}, "retry_chain": set()}
 for prop, verdict, hang_judged, cfgf, specs in [
     ("C01", None, False, _slow(True, True), [("oneof_shared_dep", C.oneof_shared_dep), ("oneof_diamond", C.oneof_diamond),
                                              ("oneof_diamond_shared", C.oneof_diamond_shared),
@@ -417,6 +422,8 @@ for prop, verdict, hang_judged, cfgf, specs in [
         from .c01 import verdict as _c01_verdict
         verdict = _c01_verdict
     for nm, f in specs:
+        if nm == "rec_inner_start":
+            cfgf = _slow(True, False)  # events only: four independent durations make this template too large for the quick tier
         _reg(prop, "slow_collab_" + nm, f, verdict, tier="quick", judge_hang=hang_judged, cfg_fn=cfgf, budget=400,
              beh_kw={"dur_nodes": SLOW_DUR[nm]}, extra_syms=SLOW_SYMS + ("node durations only for %s" % sorted(SLOW_DUR[nm]),))
 
@@ -510,3 +517,30 @@ for prop, verdict in (("C01", _c01v), ("C03", _c03)):
                   ("switch_nested", C.switch_nested), ("rec_inner_start", lambda: C.rec_inner_start(1, True))]:
         _reg(prop, "symbase_xy_" + nm, _two_inputs(f), verdict, tier="thorough", budget=2400, beh_kw={"sym_base": True},
              extra_syms=("additive constant of every node in [-50,50]", "second caller input y"))
+
+
+# ------------------------------------------------------------------------------------ templates added after the second,
+# unseen round of seeded changes (DESIGN section 7)
+ROUND2 = {
+    "C01": [("oneof_with_switch", C.oneof_with_switch), ("switch_two_deciders", C.switch_two_deciders),
+            ("switch_two_deciders_deep", lambda: C.switch_two_deciders(True)), ("rec_none_data", C.rec_none_data),
+            ("oneof_shared_failing_ancestor", C.oneof_shared_failing_ancestor)],
+    "C02": [("switch_two_deciders", C.switch_two_deciders), ("switch_two_deciders_deep", lambda: C.switch_two_deciders(True)),
+            ("oneof_with_switch_unknown", C.oneof_with_switch_unknown), ("oneof_siblings_shared", C.oneof_siblings_shared),
+            ("rec_retry_inside", C.rec_retry_inside)],
+    "C03": [("oneof_shared_failing_ancestor", C.oneof_shared_failing_ancestor), ("switch_two_deciders", C.switch_two_deciders),
+            ("rec_none_data", C.rec_none_data), ("switch_unnamed_same_decider", C.switch_unnamed_same_decider)],
+    "C04": [("switch_two_deciders", C.switch_two_deciders), ("rec_retry_inside", C.rec_retry_inside)],
+    "C05": [("oneof_with_switch_unknown", C.oneof_with_switch_unknown),
+            ("oneof_shared_failing_ancestor", C.oneof_shared_failing_ancestor), ("oneof_siblings_shared", C.oneof_siblings_shared)],
+    "C09": [("switch_two_deciders", C.switch_two_deciders), ("switch_two_deciders_deep", lambda: C.switch_two_deciders(True)),
+            ("switch_unnamed_same_decider", C.switch_unnamed_same_decider),
+            ("oneof_with_switch_unknown", C.oneof_with_switch_unknown)],
+    "C10": [("oneof_shared_failing_ancestor", C.oneof_shared_failing_ancestor), ("oneof_siblings_shared", C.oneof_siblings_shared),
+            ("oneof_with_switch_unknown", C.oneof_with_switch_unknown)],
+    "C11": [("rec_none_data", C.rec_none_data), ("rec_retry_inside", C.rec_retry_inside)],
+}
+_VERD = {"C01": _c01v, "C02": _nothing, "C03": _c03, "C04": _c04, "C05": _c05, "C09": _c09, "C10": _c10, "C11": _c11}
+for prop, specs in ROUND2.items():
+    for nm, f in specs:
+        _reg(prop, "r2_" + nm, f, _VERD[prop], tier="quick", judge_hang=(prop in ("C02", "C09", "C10")), budget=400)
